@@ -148,6 +148,17 @@ func init() {
 					params = p
 					return m[name]
 				},
+				Reuse: func() func(in []byte) Result {
+					if params == nil {
+						_, params = prioMessages(kind, 0)
+					}
+					m := f(params)
+					return func(in []byte) Result {
+						err := m.UnmarshalBinary(in)
+						m.MarshalBinary()
+						return Result{Accepted: err == nil}
+					}
+				},
 				Call: func(in []byte) Result {
 					if params == nil {
 						_, params = prioMessages(kind, 0)
